@@ -47,7 +47,7 @@ fn flip(k: &Pubkey, at: usize) -> Pubkey {
 pub fn run(tier: Tier, seed: u64) -> i32 {
     let mut rep = Report::new("C04", tier, seed);
     rep.exhaustive = true;
-    rep.rule = "enumeration: for every privileged instruction of the program (catalogue cross-checked at run time against the `pub fn` list of /repo/programs/whirlpool/src/lib.rs; unknown instruction => inconclusive) a golden invocation that must succeed on the base state, then every variant on a clone of that state: (a) authority key present without signature, (b) a different funded key signing, (b') keys differing from the authority in one bit at either end, (c) the corresponding authority of another config / pool, and for position-token authorities additionally (c') another holder with the token account of their own position, (d) a delegate with delegated amount 0, 1, 2 (only 1 may pass), (e) a token account of the position mint holding 0 tokens, (f) the token account of another position with its real owner signing, (g) the delegate's key in the slot while only the owner signs. Every variant except the documented ones must fail. distinct = (instruction, variant)".into();
+    rep.rule = "enumeration: for every privileged instruction of the program (catalogue cross-checked at run time against the `pub fn` list of /repo/programs/whirlpool/src/lib.rs; unknown instruction => inconclusive) a golden invocation that must succeed on the base state, then every variant on a clone of that state: (a) authority key present without signature, (b) a different funded key signing, (b') keys differing from the authority in one bit at either end, (c) the corresponding authority of another config / pool, and for position-token authorities additionally (c') another holder with the token account of their own position, (d) a delegate with delegated amount 0, 1, 2 (only 1 may pass), (e) a token account of the position mint holding 0 tokens, (f) the token account of another position with its real owner signing, (g) the delegate's key in the slot while only the owner signs, (h) a forged copy of the token account (attacker as owner, amount 1) owned by a program that is not a token program: a random id and ids that share a prefix, a suffix or both ends with the Token / Token-2022 ids. Every variant except the documented ones must fail. distinct = (instruction, variant)".into();
     rep.assumptions = vec!["native mini-SVM with the runtime's signer-privilege rules; a variant that would need a signature the transaction does not carry cannot be built by a client at all (counted as rejected)".into(), "keys are sampled: an authority comparison that ignores some byte is only probed at byte 0 and byte 31".into()];
     let flavours = tier.pick(1, 4);
     let mut acc = Acc::default();
@@ -120,6 +120,27 @@ pub fn run(tier: Tier, seed: u64) -> i32 {
                             w2.bank = bank.clone();
                             let empty = w2.create_token_account(mint, other_user);
                             variants.push(("e:empty_token_account".into(), w2.bank.clone(), with_signer(&g.ix, a.slot, other_user).with_key(token_slot, empty), false));
+                        }
+                        // (h) a forged token account (right mint, attacker as owner, amount 1) that is not owned by a
+                        // token program: random program, and ids sharing a prefix / a suffix with the two real ones
+                        if let Some(ta) = &tok_acct {
+                            let mut fakes: Vec<(String, Pubkey)> = vec![("random".into(), bs.w.new_key())];
+                            for (n, real) in [("token", TOKEN), ("token22", TOKEN22)] {
+                                fakes.push((format!("{n}_first_byte_off"), flip(&real, 0)));
+                                fakes.push((format!("{n}_last_byte_off"), flip(&real, 31)));
+                                let mut b = real.to_bytes();
+                                b[8..24].iter_mut().for_each(|x| *x ^= 0x5a);
+                                fakes.push((format!("{n}_middle_off"), Pubkey::new_from_array(b)));
+                            }
+                            for (n, prog) in fakes {
+                                let forged = bs.w.new_key();
+                                let mut d = ta.data.clone();
+                                d[32..64].copy_from_slice(other_user.as_ref());
+                                d[64..72].copy_from_slice(&1u64.to_le_bytes());
+                                let mut bk = bank.clone();
+                                bk.set(forged, crate::svm::Acct { lamports: ta.lamports, data: d, owner: prog, executable: false });
+                                variants.push((format!("h:forged_token_account_owned_by_{n}"), bk, with_signer(&g.ix, a.slot, other_user).with_key(token_slot, forged), false));
+                            }
                         }
                         // (d) delegates
                         if let Some(ta) = &tok_acct {
